@@ -522,3 +522,208 @@ def _deriv(p):
                 dv.append(numpoly.symbols(str(d["v"])))
         return numpoly.derivative(poly, *dv)
     return run
+
+
+# ------------------------------------- C03 construction from attributes, rebuilding
+def _flag(v):
+    return None if v == "none" else (v == "true")
+
+
+@action("from_attributes")
+def _from_attributes(p):
+    import numpoly
+
+    def run():
+        shape = tuple(p["shape"])
+        dtype = p.get("dtype", "int64")
+        coefs = [numpy.array([P.unnum(c) for c in row], dtype=dtype).reshape(shape) for row in p["coefs"]]
+        names = tuple("q%d" % n for n in p["names"])
+        kw = {}
+        if p["rc"] != "none":
+            kw["retain_coefficients"] = _flag(p["rc"])
+        if p["rn"] != "none":
+            kw["retain_names"] = _flag(p["rn"])
+        via = p.get("via", "function")
+        exps = [list(r) for r in p["rows"]]
+        if via == "classmethod":
+            return numpoly.ndpoly.from_attributes(exps, coefs, names, **kw)
+        if via == "clean_attributes":
+            raw = numpoly.polynomial_from_attributes(exps, coefs, names, retain_coefficients=True, retain_names=True)
+            return numpoly.clean_attributes(raw, **kw)
+        return numpoly.polynomial_from_attributes(exps, coefs, names, **kw)
+    return run
+
+
+@action("rebuild")
+def _rebuild(p):
+    import numpoly
+    via = p["via"]
+
+    def run(a):
+        if via == "attributes":
+            return numpoly.polynomial_from_attributes(a.exponents, a.coefficients, a.names)
+        if via == "raw":
+            return numpoly.aspolynomial(a.values, names=a.names)
+        if via == "raw_polynomial":
+            return numpoly.polynomial(a.values, names=a.names)
+        if via == "todict":
+            return numpoly.polynomial(a.todict(), names=a.names)
+        if via == "polynomial":
+            return numpoly.polynomial(a)
+        if via == "aspolynomial":
+            return numpoly.aspolynomial(a)
+        if via == "indeterminants_call":
+            return a(*a.indeterminants)
+        raise ValueError(via)
+    return run
+
+
+@action("variable")
+def _variable(p):
+    import numpoly
+    how = p.get("how", "variable")
+
+    def run():
+        if how == "variable":
+            return numpoly.variable(p["n"])
+        if how == "symbols_range":
+            return numpoly.symbols("q:%d" % p["n"])
+        return numpoly.symbols(" ".join("q%d" % i for i in p["ids"]))
+    return run
+
+
+# ---------------------------------------------------------------- C04 alignment
+@action("align")
+def _align(p):
+    import numpoly
+    from .record import Multi
+    fn = getattr(numpoly, p["fn"])
+    return lambda *ops: Multi(fn(*ops))
+
+
+@action("realign")
+def _realign(p):
+    import numpoly
+    from .record import Multi
+    fn = getattr(numpoly, p["fn"])
+    return lambda *ops: Multi(fn(*ops))
+
+
+# ------------------------------------------------------- C17 frame: targets, any call
+@action("copyto")
+def _copyto(p):
+    import numpoly
+    sp = p.get("spelling", "numpoly")
+
+    def run(dst, src):
+        kw = {}
+        if p.get("mask"):
+            kw["where"] = numpy.array(p["mask"], dtype=bool).reshape(dst.shape)
+        return (numpy if sp == "numpy" else numpoly).copyto(dst, src, **kw)
+    return run
+
+
+def _any_calls():
+    import numpoly
+    np = numpy
+    return {
+        "reshape_bad": lambda a: numpoly.reshape(a, (7, 11)),
+        "transpose_bad": lambda a: numpoly.transpose(a, (5, 6)),
+        "concatenate_bad": lambda a, b: numpoly.concatenate([a, b], axis=9),
+        "tonumpy": lambda a: numpoly.tonumpy(a),
+        "true_divide": lambda a, b: numpoly.true_divide(a, b),
+        "floor_divide": lambda a, b: numpoly.floor_divide(a, b),
+        "np_remainder": lambda a, b: np.remainder(a, b),
+        "add_bad_shape": lambda a, b: a + numpoly.polynomial([[1, 2, 3, 4, 5], [1, 2, 3, 4, 5]]) + b,
+        "call_bad": lambda a: a(q77=1),
+        "getitem_bad": lambda a: a[99, 99, 99, 99],
+        "np_sort": lambda a: np.sort(a),
+        "np_linalg_inv": lambda a: np.linalg.inv(a),
+        "np_arctan": lambda a: np.arctan(a),
+        "reduceat": lambda a: np.add.reduceat(a, [0]),
+        "outer_method": lambda a, b: np.add.outer(a, b),
+        "divmod": lambda a, b: divmod(a, b),
+        "poly_divide": lambda a, b: numpoly.poly_divide(a, b),
+        "mod": lambda a, b: a % b,
+        "equal": lambda a, b: a == b,
+        "not_equal": lambda a, b: a != b,
+        "derivative0": lambda a: numpoly.derivative(a, 0),
+        "gradient": lambda a: numpoly.gradient(a),
+        "isclose": lambda a, b: numpoly.isclose(a, b),
+        "allclose": lambda a, b: numpoly.allclose(a, b),
+        "where1": lambda a: numpoly.where(a),
+        "nonzero": lambda a: numpoly.nonzero(a),
+        "count_nonzero": lambda a: numpoly.count_nonzero(a),
+        "any_all": lambda a: (numpoly.any(a), numpoly.all(a)),
+        "logical": lambda a, b: (numpoly.logical_and(a, b), numpoly.logical_or(a, b)),
+        "absolute": lambda a: numpoly.absolute(a),
+        "around": lambda a: numpoly.around(a, 1),
+        "rounding": lambda a: (numpoly.ceil(a), numpoly.floor(a), numpoly.rint(a)),
+        "isfinite": lambda a: numpoly.isfinite(a),
+        "ones_zeros_like": lambda a: (numpoly.ones_like(a), numpoly.zeros_like(a)),
+        "str_repr": lambda a: (str(a), repr(a)),
+        "pickle": lambda a: __import__("pickle").loads(__import__("pickle").dumps(a)),
+        "copy": lambda a: (a.copy(), __import__("copy").copy(a), __import__("copy").deepcopy(a)),
+        "properties": lambda a: (a.exponents, a.coefficients, a.names, a.keys, a.values, a.indeterminants, a.dtype, a.todict()),
+        "astype_float": lambda a: a.astype(float),
+        "sum_mean": lambda a: (numpoly.sum(a), numpoly.mean(a), numpoly.cumsum(a)),
+        "max_min": lambda a: (numpoly.amax(a), numpoly.amin(a), numpoly.argmax(a), numpoly.argmin(a)),
+        "sortable_proxy": lambda a: numpoly.sortable_proxy(a),
+        "lead": lambda a: (numpoly.lead_exponent(a), numpoly.lead_coefficient(a)),
+        "apply_along_axis": lambda a: numpoly.apply_along_axis(numpoly.sum, 0, a),
+        "result_type": lambda a, b: (numpoly.result_type(a, b), numpoly.common_type(a, b)),
+        "set_dimensions": lambda a: numpoly.set_dimensions(a, 1),
+        "decompose": lambda a: numpoly.decompose(a),
+        "to_sympy": lambda a: numpoly.to_sympy(a),
+        "roots": lambda a: numpoly.roots(a),
+        "inplace_add": None,
+    }
+
+
+@action("any")
+def _any(p):
+    table = _any_calls()
+    return table[p["name"]]
+
+
+# ------------------------------------------------------------------ C12 dtypes
+@action("dtype")
+def _dtype(p):
+    import numpoly
+    from .record import Extra
+    fn = p["fn"]
+
+    def run(*ops):
+        if fn == "dtype_pair":
+            return Extra(None, np=str(numpy.result_type(numpy.dtype(p["a"]), numpy.dtype(p["b"]))))
+        if fn == "cast":
+            import warnings
+            src = numpy.array([P.unnum(v) for v in p["vals"]], dtype=p["frm"])
+            with warnings.catch_warnings():
+                warnings.simplefilter("ignore")
+                out = src.astype(p["to"])
+            return Extra(None, np_vals=P._flat_nums(out))
+        if fn == "construct":
+            how = p["how"]
+            kw = {"dtype": p["dtype"]} if p["dtype"] else {}
+            x = ops[0]
+            if how == "polynomial":
+                return numpoly.polynomial(x, **kw)
+            if how == "aspolynomial":
+                return numpoly.aspolynomial(x, **kw)
+            if how == "astype":
+                import warnings
+                with warnings.catch_warnings():
+                    warnings.simplefilter("ignore")
+                    return x.astype(p["dtype"])
+            if how == "from_attributes":
+                return numpoly.polynomial_from_attributes(x.exponents, x.coefficients, x.names, **kw)
+            raise ValueError(how)
+        if fn == "variable":
+            if p["how"] == "variable":
+                return numpoly.variable(p["n"], dtype=p["dtype"])
+            return numpoly.symbols("q:%d" % p["n"], dtype=p["dtype"])
+        if fn == "arith":
+            return _OP_BIN[p["op"]](ops[0], ops[1])
+        raise ValueError(fn)
+    return run
